@@ -1489,6 +1489,10 @@ func (ex *Exec) indexAddr(fr *Frame, x *ssa.IndexAddr) Value {
 	switch c := cv.(type) {
 	case SliceV:
 		ex.idxTermBounds(idx, c.Len, x)
+		if !idx.Const && ex.splitIndex && c.Len <= 16 && ex.specDepth == 0 {
+			// case-split small element indices instead of building ite chains over the elements
+			idx = ex.concretize(idx, c.Len+1, "element index at "+ex.posOf(x))
+		}
 		if idx.Const {
 			return Pointer{Obj: c.Arr.Obj, Path: appendPath(c.Arr.Path, PathElem{Idx: c.Off + int(idx.BigS().Int64())})}
 		}
